@@ -18,7 +18,7 @@ import numpy as np
 import z3
 
 from pyvc import core
-from pyvc.core import And, Not, Or, RaiseSig, SBool, SInt, SObj, SU64, ctx
+from pyvc.core import And, Not, Or, RaiseSig, SBool, SInt, SObj, SU64, ctx, implies
 from pyvc.sbytes import SBytes
 from pyvc.verify import Contract, register
 
@@ -228,3 +228,95 @@ def _use(fn):
 
 
 ShardedHttpFetchChunk.replay = _use(_native.sharded_http_plumbing_sweep)
+
+
+# --------------------------------------------------------------------------- Shard.read_bytes (local files)
+
+from pyvc import fsmodel as _fsmodel  # noqa: E402
+from pyvc.fsmodel import get_fs as _get_fs  # noqa: E402
+
+
+@register
+class ShardReadBytes(Contract):
+    """Shard.read_bytes(offset, length) == file[offset : offset + length] of <shard>.shard (legacy: .index
+    below the header length, .data above, offset rebased) -- the concrete counterpart of the abstract
+    read_bytes contract the reader proofs use; in particular a length of 0 reads nothing"""
+    target = "neuroglancer_scripts.sharded_file_accessor.Shard.read_bytes"
+    props = ("C05",)
+    use_at_call_sites = False
+    configs = ("modern", "legacy", "write-only")
+
+    def setup(self, c, cfg):
+        from neuroglancer_scripts.sharded_file_accessor import Shard
+        from ._common import mk_shard_spec
+        self.cfg = cfg
+        self.H = c.int("header_byte_length", inp=True)
+        c.assume(self.H >= 16)
+        path = pathlib.Path("/data/dataset/key/0a.shard")
+        self.obj = SObj(Shard, {"file_path": path, "root_dir": path.parent, "is_legacy": cfg == "legacy", "can_read_cmc": cfg != "write-only",
+                                "header_byte_length": self.H, "shard_spec": mk_shard_spec(c), "shard_key_str": "0a"})
+        fs = _get_fs()
+        self.files = {}
+        for suffix in (".shard", ".index", ".data"):
+            content = SBytes.fresh(c, "file" + suffix.replace(".", "_"))
+            e = _fsmodel.FSEntry("/data/dataset/key/0a" + suffix, True, content)
+            fs.entries.append(e)
+            self.files[suffix] = content
+        self.off = c.int("offset", inp=True)
+        self.ln = c.int("length", inp=True)
+        c.assume(And(self.off >= 0, self.ln >= 0))
+        return (self.obj, self.off, self.ln), {}
+
+    def bind(self, fn, args, kwargs):
+        return {}
+
+    def ensures(self, c, result):
+        yield ("readable-shard-only", self.cfg != "write-only")
+        fs = _get_fs()
+        opened = [p for (op, p) in fs.log if op.startswith("open")]
+        yield ("opens-exactly-one-file", len(opened) == 1)
+        if len(opened) != 1:
+            return
+        if self.cfg == "legacy":
+            in_index = self.off < self.H
+            yield ("legacy:index-below-the-header-length,data-above", opened[0].endswith(".index") if c.interp.truth(in_index) else opened[0].endswith(".data"))
+            base = self.off if opened[0].endswith(".index") else self.off - self.H
+        else:
+            yield ("reads-<shard>.shard", opened[0].endswith("0a.shard"))
+            base = self.off
+        F = self.files["." + opened[0].rsplit(".", 1)[1]]
+        ok = isinstance(result, SBytes)
+        yield ("returns-bytes", ok)
+        if not ok:
+            return
+        avail = core.smax(0, F.len - base)
+        yield ("length==min(requested, what the file holds from the offset)(0 requested -> nothing)", result.len == core.smin(self.ln, avail))
+        j = c.int("j", inp=True)
+        yield ("content==file[offset+j]", implies(And(j >= 0, j < result.len), result.fn(j) == F.fn(base + j)))
+        yield ("nothing-modified", all(e.initial for e in fs.entries))
+
+    def raises_when(self, c):
+        from neuroglancer_scripts.sharded_base import ShardedIOError
+        return [(ShardedIOError, self.cfg == "write-only")]
+
+
+def native_read_bytes_check(model):
+    import tempfile
+    from neuroglancer_scripts.sharded_file_accessor import Shard
+    bad = []
+    with tempfile.TemporaryDirectory() as td:
+        p = pathlib.Path(td) / "0a.shard"
+        p.write_bytes(bytes(range(40)))
+        sh = Shard.__new__(Shard)
+        sh.file_path, sh.root_dir, sh.is_legacy, sh.can_read_cmc, sh.header_byte_length = p, p.parent, False, True, 16
+        cases = [(0, 0), (16, 0), (5, 7), (30, 20), (40, 3)]
+        if "offset" in model and "length" in model:
+            cases.insert(0, (min(max(0, model["offset"]), 45), min(max(0, model["length"]), 45)))
+        for off, ln in cases:
+            got = sh.read_bytes(off, ln)
+            if got != bytes(range(40))[off:off + ln]:
+                bad.append(f"Shard.read_bytes(offset={off}, length={ln}) on a 40-byte file returns {len(got)} bytes instead of {len(bytes(range(40))[off:off + ln])}")
+    return {"reproduced": bool(bad), "detail": bad[0] if bad else "read_bytes returns exactly the requested range"}
+
+
+ShardReadBytes.replay = lambda self, model, cfg, ob_name: native_read_bytes_check(model)
